@@ -78,12 +78,12 @@ def exact_domain(cls, kw, x):
   return c01.domain(x, fmt)
 
 
-def build_var_quantizer(cls, kw):
+def build_var_quantizer(cls, kw, shape=()):
   import tensorflow as tf
   k2 = dict(kw)
   k2["use_variables"] = True
   q = qz.make(cls, k2)
-  q(tf.constant(0.5, tf.float32))     # build: creates the tf.Variable
+  q(tf.constant(np.full(shape, 0.5, dtype=np.float32)))     # build: creates the tf.Variable
   return q
 
 
@@ -177,6 +177,61 @@ def one_quantizer(run, cls, kw, rng, idx):
                     dict(clause="update_api_eager", cls=cls, kw=kw, f=fv, xs=xs.tolist()))
 
 
+TENSOR_CONFIGS = [("quantized_bits", dict(bits=4, integer=1, alpha="auto"), (2,)), ("quantized_bits", dict(bits=4, integer=2, alpha="auto", use_ste=False), (2,))]
+
+
+def tensor_quantizer(run, cls, kw, shape, idx):
+  """data-dependent scale (alpha='auto'): the quantizer works on a tensor; the end-point clauses f = 0 (the input itself) and
+  f = 1 (the constant-factor quantizer) are decided for every element with all elements and f symbolic"""
+  import tensorflow as tf
+  cfg = qz.cfg_str(cls, kw) + " on %s" % (shape,)
+  qv = build_var_quantizer(cls, kw, shape)
+  var = qv.qnoise_factor
+  b = ir.Builder()
+  fsym = np.empty((), dtype=object)
+  fsym[()] = b.input("f")
+  b.opaque_factors = {fsym[()].nid, b.sub(b.const(1.0), fsym[()]).nid}
+  tr = qz.Traced(qv, shape, builder=b, var_syms={id(var): fsym})
+  q1 = qz.make(cls, dict(kw, qnoise_factor=1.0))
+  tr1 = qz.Traced(q1, shape, builder=b)
+  xs, outs, outs1, f = tr.xs(), tr.outs(), tr1.outs(), fsym[()]
+  # translator validation including the variable read
+  rs = np.random.RandomState(idx)
+  bad = []
+  for _ in range(6):
+    xv = (rs.randn(*shape) * 2).astype(np.float32)
+    for fv in (0.0, 0.5, 1.0):
+      var.assign(fv)
+      real = np.asarray(qv(tf.constant(xv))).reshape(-1)
+      env = {n.attr: np.float32(v) for n, v in zip(xs, xv.reshape(-1))}
+      env["f"] = np.float32(fv)
+      enc = tfg.concrete_env(b, list(outs), env)
+      if not all(qz.evalr.same(enc[o.nid], r_) for o, r_ in zip(outs, real)):
+        bad.append((xv.tolist(), fv))
+  run.validated_points += 18
+  run.validated_graphs += 1
+  if bad:
+    run.inconclusive_("translator mismatch (tensor qnoise) for %s: %s" % (cfg, bad[:2]))
+    return
+  run.configs.append(cfg)
+  b.close_stubs()
+  dom = []
+  for x in xs:
+    dom += [qz.finite_normal(x), qz.abs_lt(x, 2.0 ** 20), ir.L("(fp.geq (fp.abs {0}) %s)" % ir.fp_lit(2.0 ** -20), x)]
+  meta = dict(cls=cls, kw=kw, shape=list(shape))
+  eqz = lambda a, c: ir.L("(not (or (fp.eq {0} {1}) (and (fp.isNaN {0}) (fp.isNaN {1}))))", a, c)
+  gv = [x.attr + "_b" for x in xs]
+  for i, (x, o, o1) in enumerate(zip(xs, outs, outs1)):
+    run.add("T%02d_f0_e%d" % (idx, i), ir.build_smt(b, dom + [ir.L("(fp.isZero {0})", f), eqz(o, x)], get_values=gv), meta=dict(meta, clause="f0", element=i), timeout=900)
+    if o is o1:
+      ob_ = harness.solve.Obligation("%s_T%02d_f1_e%d" % (PROP, idx, i), "(structural) identical terms", meta=dict(meta, clause="f1", element=i, by="hash-consing"))
+      ob_.result = harness.solve.Result("unsat", {}, 0.0, "hash-consing")
+      run.obls.append(ob_)
+    else:
+      run.add("T%02d_f1_e%d" % (idx, i), ir.build_smt(b, dom + [ir.L("(fp.eq {0} %s)" % ir.fp_lit(1.0), f), eqz(o, o1)], get_values=gv), meta=dict(meta, clause="f1", element=i), timeout=900)
+  run.add_twin("T%02d" % idx, ir.build_smt(b, dom + [ir.L("(= {0} {0})", outs[0])]), meta=meta)
+
+
 def replay_concrete(rep):
   import tensorflow as tf
   cls, kw, clause = rep["cls"], rep["kw"], rep["clause"]
@@ -190,6 +245,15 @@ def replay_concrete(rep):
     xs = np.asarray(rep["xs"], dtype=np.float32)
     ra, rv = np.asarray(qa(tf.constant(xs))).reshape(-1), np.asarray(qv(tf.constant(xs))).reshape(-1)
     return (not all(qz.evalr.same(a_, v_) for a_, v_ in zip(ra, rv))), dict(ctor=ra.tolist(), variable=rv.tolist())
+  if rep.get("shape"):
+    xs = np.array([ir.bits_f32(b_) for b_ in rep["xs_bits"]], dtype=np.float32).reshape(rep["shape"])
+    fv = {"f0": 0.0, "f1": 1.0}[clause]
+    qv = build_var_quantizer(cls, kw, tuple(rep["shape"]))
+    qv.qnoise_factor.assign(fv)
+    out = np.asarray(qv(tf.constant(xs))).reshape(-1)
+    want = xs.reshape(-1) if clause == "f0" else np.asarray(qz.make(cls, dict(kw, qnoise_factor=1.0))(tf.constant(xs))).reshape(-1)
+    i = rep.get("element", 0)
+    return not qz.evalr.same(out[i], want[i]), dict(x=xs.tolist(), f=fv, out=out.tolist(), expected=want.tolist(), cfg=qz.cfg_str(cls, kw), clause=clause)
   x = ir.bits_f32(rep["x_bits"])
   f = ir.bits_f32(rep["f_bits"]) if rep.get("f_bits") is not None else np.float32(rep.get("f", 1.0))
   qv = build_var_quantizer(cls, kw)
@@ -248,6 +312,9 @@ def triage(run):
       continue
     if r.verdict == "sat":
       rep = dict(cls=o.meta["cls"], kw=o.meta["kw"], clause=o.meta["clause"], x_bits=r.model.get("x_b"), f_bits=r.model.get("f_b"), f=o.meta.get("f"))
+      if o.meta.get("shape"):
+        names = sorted(k for k in r.model if k.startswith("x_") and k.endswith("_b"))
+        rep.update(shape=o.meta["shape"], xs_bits=[r.model[k] for k in names], element=o.meta.get("element", 0))
       ok, detail = replay_concrete(rep)
       if ok:
         run.violation(dict(cls=o.meta["cls"], clause=o.meta["clause"], use_ste=o.meta["kw"].get("use_ste", True)), detail, rep)
@@ -463,6 +530,11 @@ def run(tier, seed):
       one_quantizer(r, cls, kw, rng, i)
     except tfg.Unsupported as e:
       r.inconclusive_("cannot translate %s: %s" % (qz.cfg_str(cls, kw), e))
+  for i, (cls, kw, shape) in enumerate(TENSOR_CONFIGS if tier == "thorough" else TENSOR_CONFIGS[:1]):
+    try:
+      tensor_quantizer(r, cls, kw, shape, i)
+    except tfg.Unsupported as e:
+      r.inconclusive_("cannot translate %s: %s" % (qz.cfg_str(cls, kw), e))
   r.discharge()
   triage(r)
   try:
@@ -475,6 +547,8 @@ def run(tier, seed):
                  "QNoiseScheduler.calculate_qnoise_factor/update_qnoise_factor/set_qnoise_factor/on_epoch_begin/on_train_batch_begin"]
   r.bounds = ["%d quantizer configurations; x = symbolic float32 in the exactness region of C01/C03, f = symbolic float32 in [0,1]" % len(cfgs),
               "constructor constant vs update API vs variable-backed: f0 on a %d-point grid, equality for all x" % (7 if tier == "quick" else len(FGRID)),
+              "data-dependent scale: quantized_bits(alpha='auto') on a two-element tensor, both elements and f symbolic: end-point clauses f=0 "
+              "(the input itself) and f=1 (the constant-factor quantizer) per element; the general mixing clause is not decided for it",
               "scheduler: start <= finish <= 10^6, exponent > 0 real, update_freq 1..8, num_iters/initial <= 10^6 - all symbolic; one inductive "
               "step from the invariant 'every quantizer holds calculate(g) for an earlier step g'",
               "get_quantizers() over real layer objects is executed concretely on one model (auxiliary, not a solver result)"]
